@@ -329,13 +329,16 @@ enum Op2 {
     Optimize,
     Use(bool),
     AlwaysDiscard,
+    /// the incremental forms of a tag switch
+    Enable,
+    Disable,
 }
 
 fn s2_ops() -> Vec<Op2> {
     let mut v: Vec<Op2> = (0..S2_URLS.len()).map(Op2::Check).collect();
     v.push(Op2::Csp);
     v.extend((0..S2_ADD.len()).map(Op2::Add));
-    v.extend([Op2::Optimize, Op2::Use(true), Op2::Use(false), Op2::AlwaysDiscard]);
+    v.extend([Op2::Optimize, Op2::Use(true), Op2::Use(false), Op2::AlwaysDiscard, Op2::Enable, Op2::Disable]);
     v
 }
 
@@ -466,6 +469,8 @@ fn s2_run(s: &S2, res: &ResourceStorage, seq: &[usize], l: &mut Local) -> Option
                 }
             }
             Op2::AlwaysDiscard => b.set_regex_discard_policy(always()),
+            Op2::Enable => b.enable_tags(&["a"]),
+            Op2::Disable => b.disable_tags(&["a"]),
             _ => unreachable!(),
         });
         if let Err(loc) = r {
@@ -478,6 +483,8 @@ fn s2_run(s: &S2, res: &ResourceStorage, seq: &[usize], l: &mut Local) -> Option
                 }
             }
             Op2::Use(t) => key.1 = t,
+            Op2::Enable => key.1 = true,
+            Op2::Disable => key.1 = false,
             _ => {}
         }
     }
